@@ -460,3 +460,71 @@ Section Rules.
     Qed.
   End WithCodecs.
 End Rules.
+
+(* ---------------------------------------------------------------- corollaries stated for props/C02.v *)
+Lemma segs_of_subset : forall ops g s, In s (segs_of ops g) -> In s (flat_map snd ops).
+Proof.
+  induction ops as [|[g0 b] tl IH]; intros g s H; [destruct H|].
+  unfold segs_of in H. cbn [flat_map fst snd] in *. apply in_app_or in H. apply in_or_app.
+  destruct H as [H|H].
+  - left. destruct (g0 =? g); [exact H|destruct H].
+  - right. apply (IH g s). exact H.
+Qed.
+
+(* each descriptor's raw length equals the length of what the reader decodes for it *)
+Theorem desc_len_is_decoded_len_proof :
+  forall lz_enc lz_dec compress_ref compress_pack dwm ref_dom lz_dom ops st g s id b,
+  codecs_ok lz_enc lz_dec compress_ref compress_pack dwm ref_dom lz_dom ->
+  ops_ok ref_dom lz_dom ops ->
+  run lz_enc compress_ref compress_pack ops = Ok st ->
+  In (s, id) (regs_of st g) ->
+  get_segment dwm lz_dec (view_of (finalize compress_pack st)) (desc_of g s id) = Ok b ->
+  d_len (desc_of g s id) = lenN b.
+Proof.
+  intros lz_enc lz_dec compress_ref compress_pack dwm ref_dom lz_dom ops st g s id b HC Hops Hrun Hin Hget.
+  destruct (store_then_get_proof _ _ _ _ _ _ _ HC ops st g s id Hops Hrun Hin) as [H1 H2].
+  rewrite H1 in Hget. inversion Hget; subst b. exact H2.
+Qed.
+
+(* the alphabet hypothesis (codes 0..30 in raw groups) is enough for the separator-freeness part of ops_ok *)
+Definition ops_alpha (ref_dom : list N -> Prop) (lz_dom : list N -> list N -> Prop) (ops : list op) : Prop :=
+  forall g s, In s (segs_of ops g) ->
+    lenN (s_data s) < two32 /\
+    (g < 16 -> Forall (fun b => b <= 30) (s_data s)) /\
+    (16 <= g -> ref_dom (s_data s) /\ forall s', In s' (segs_of ops g) -> lz_dom (s_data s') (s_data s)).
+
+Lemma ops_alpha_ok : forall ref_dom lz_dom ops, ops_alpha ref_dom lz_dom ops -> ops_ok ref_dom lz_dom ops.
+Proof.
+  intros ref_dom lz_dom ops H g s Hin. destruct (H g s Hin) as [H1 [H2 H3]].
+  split; [exact H1|]. split; [|exact H3].
+  intros Hg Hc. specialize (H2 Hg). rewrite Forall_forall in H2. specialize (H2 _ Hc).
+  change CONTIG_SEPARATOR with 255 in H2. lia.
+Qed.
+
+Theorem no_separator_in_entry_proof :
+  forall lz_enc lz_dec compress_ref compress_pack dwm ref_dom lz_dom ops st g dparts,
+  codecs_ok lz_enc lz_dec compress_ref compress_pack dwm ref_dom lz_dom ->
+  ops_alpha ref_dom lz_dom ops ->
+  run lz_enc compress_ref compress_pack ops = Ok st ->
+  gv_delta (view_of (finalize compress_pack st) g) = Some dparts ->
+  exists chunks : list (list (list N)),
+    length chunks = length dparts /\
+    forall i p c, nth_error dparts i = Some p -> nth_error chunks i = Some c ->
+      load_part dwm p = Ok (flat_map (fun e => e ++ [CONTIG_SEPARATOR]) c) /\
+      forall e, In e c -> ~ In CONTIG_SEPARATOR e.
+Proof.
+  intros lz_enc lz_dec compress_ref compress_pack dwm ref_dom lz_dom ops st g dparts HC Ha Hrun Hv.
+  destruct (pack_layout_proof _ _ _ _ _ _ _ HC ops st g dparts (ops_alpha_ok _ _ _ Ha) Hrun Hv) as [chunks [Hl H]].
+  exists chunks. split; [exact Hl|]. intros i p c Hp Hc. destruct (H i p c Hp Hc) as [H1 [_ [_ H4]]].
+  split; assumption.
+Qed.
+
+(* writer and reader carry the same format constants, every literal site agrees *)
+Lemma consts_ok_proof :
+  W_PACK_CARDINALITY = R_PACK_CARDINALITY /\ W_NO_RAW_GROUPS = R_NO_RAW_GROUPS /\
+  W_PLACEHOLDER_STEP <> CONTIG_SEPARATOR /\
+  W_PLACEHOLDER_FLUSH_PACK = W_PLACEHOLDER_STEP /\ W_PLACEHOLDER_FINALIZE = W_PLACEHOLDER_STEP /\
+  W_PACK_MARKER_FINALIZE = W_PACK_MARKER_STEP /\
+  W_FIRST_RAW_PACK_MINUS_FLUSH_PACK = W_FIRST_RAW_PACK_MINUS /\
+  W_FIRST_ID = R_DELTA_ID_OFFSET.
+Proof. repeat split; discriminate. Qed.
